@@ -13,7 +13,7 @@ from vlib import Verdict
 PID = "C11"
 PROPS = [("theories/RawKV/Props.v", "RawKV.Props")]
 AREAS = ["theories/RawKV"]
-THEOREM_OF = {"scan": "C11_scan", "rscan": "C11_reverse_scan", "drange": "C11_delete_range", "cksum": "C11_checksum",
+THEOREM_OF = {"sequence": "C11_sequence", "scan": "C11_scan", "rscan": "C11_reverse_scan", "drange": "C11_delete_range", "cksum": "C11_checksum",
               "bget": "C11_batch_get_aligned", "bput": "C11_batch_put_last_wins", "bdel": "C11_batch_delete",
               "cas": "C11_cas", "put": "C11_get_put_delete", "get": "C11_get_put_delete", "del": "C11_get_put_delete"}
 
@@ -187,6 +187,25 @@ def parse_op(line):
     return int(f[1]), int(f[2]), f[3], args, lays, bats, (int(n[0]), int(n[1])), f[-1]
 
 
+def crashed(v, exe, env, rc, out):
+    """the process died (a panic in one of the client's worker goroutines cannot be recovered):
+    attribute it by replaying the directed sequences one by one"""
+    rcd, dout = vlib.sh([exe, "directed"], env=env, timeout=60)
+    for dl in (dout.splitlines() if rcd == 0 else []):
+        if not dl.startswith("{"):
+            continue
+        tf = tempfile.NamedTemporaryFile("w", suffix=".jsonl", delete=False)
+        tf.write(dl + "\n"); tf.close()
+        rc1, out1 = vlib.sh([exe, "replay", tf.name], env=env, timeout=300)
+        if rc1 != 0:
+            v.violation({"kind": "process-crash", "oracle": "call-returns", "case": {"seq": json.loads(dl)},
+                         "impl": "process died rc=%d: %s" % (rc1, out1[:1200]),
+                         "expected_by_ordered_map": "every call returns a result",
+                         "what": "a rawkv.Client call crashed the process"})
+            return
+    v.violation({"kind": "harness", "correspondence": "RawKV driver", "error": "driver failed rc=%d: %s" % (rc, out[-1500:])}, has_input=False)
+
+
 def truncate(spec, idx):
     s = dict(spec); s["ops"] = spec["ops"][:idx + 1]; return s
 
@@ -207,32 +226,37 @@ def main(tier, replay):
     okg, exe = vlib.go_build("rawkv", roots=("ov_rawkv",))
     stats = {"ops": 0, "oracle_evals": 0, "classes": {}, "served_rpcs": 0, "region_errors": 0, "multi_region_calls": 0,
              "calls_with_region_error": 0}
-    samples, distinct = [], set()
+    samples, distinct, fallback = [], set(), []
     oracle_fail, mism = [], []
     if not (okg and okm):
         v.violation({"kind": "harness-build", "correspondence": "RawKV driver/model build against the current tree",
                      "error": (exe if not okg else modelrun)}, has_input=False)
     else:
-        cmd = [exe]
-        if replay:
-            case = json.load(open(replay)).get("case", {})
-            tf = tempfile.NamedTemporaryFile("w", suffix=".jsonl", delete=False)
-            tf.write(json.dumps(case.get("seq", case)) + "\n"); tf.close()
-            cmd = [exe, "replay", tf.name]
-        rc, out = vlib.sh(cmd, env=env, timeout=1500)
-        if rc != 0:
-            v.violation({"kind": "harness", "correspondence": "RawKV driver", "error": "driver failed rc=%d: %s" % (rc, out[-1500:])}, has_input=False)
-        else:
+        chunks = [0] if (tier == "quick" or replay) else list(range(12))
+        specs = {}
+        for chunk in chunks:
+            env["VERIF_CHUNK"] = str(chunk)
+            cmd = [exe]
+            if replay:
+                case = json.load(open(replay)).get("case", {})
+                tf = tempfile.NamedTemporaryFile("w", suffix=".jsonl", delete=False)
+                tf.write(json.dumps(case.get("seq", case)) + "\n"); tf.close()
+                cmd = [exe, "replay", tf.name]
+            rc, out = vlib.sh(cmd, env=env, timeout=1500)
+            if rc != 0:
+                crashed(v, exe, env, rc, out)
+                break
             rc2, mout = vlib.sh([modelrun], inp=out, timeout=1500)
             if rc2 != 0:
                 v.violation({"kind": "harness", "correspondence": "RawKV modelrun", "error": mout[-800:]}, has_input=False)
-            specs, ref = {}, None
+            ref = None
             for line in out.splitlines():
                 if line.startswith("SEQ\t"):
                     f = line.split("\t", 2)
-                    specs[int(f[1])] = json.loads(f[2]); ref = Ref()
+                    ref = Ref(); cur_spec = json.loads(f[2]); cur_key = (chunk, int(f[1]))
                 elif line.startswith("OP\t"):
                     sid, idx, name, args, lays, bats, (nrpc, nerr), impl = parse_op(line)
+                    sid = (chunk, sid)
                     stats["ops"] += 1
                     stats["served_rpcs"] += len(lays); stats["region_errors"] += nerr
                     stats["multi_region_calls"] += 1 if len(lays) > 1 else 0
@@ -240,19 +264,33 @@ def main(tier, replay):
                     cls = name + (":multi" if len(lays) > 1 else "") + (":rerr" if nerr else "")
                     stats["classes"][cls] = stats["classes"].get(cls, 0) + 1
                     if nrpc:
-                        distinct.add((name, tuple(args), tuple(lays), impl))
+                        distinct.add(hash((name, tuple(args), tuple(lays), impl)))
+                        if len(fallback) < 6:
+                            fallback.append(line[:400])
                     if len(samples) < 6 and len(lays) > 1 and nerr and stats["ops"] % 7 == 0:
                         samples.append(line[:400])
                     fails = check_op(ref, name, args, lays, bats, impl)
                     stats["oracle_evals"] += 1
                     for (oname, exp, detail) in fails:
+                        specs[sid] = cur_spec
                         oracle_fail.append((sid, idx, name, oname, exp, impl, detail, line))
+            mlines = 0
             for l in mout.splitlines():
                 f = l.split("\t")
                 if f[0] == "MISMATCH":
-                    mism.append((int(f[1]), int(f[2]), f[3], f[4], f[5]))
+                    mism.append(((chunk, int(f[1])), int(f[2]), f[3], f[4], f[5]))
                 elif f[0] == "STATS":
-                    stats["model_ops"] = int(f[1].split("=")[1])
+                    stats["model_ops"] = stats.get("model_ops", 0) + int(f[1].split("=")[1])
+            # keep the specs of sequences with a model mismatch
+            want = set(m[0] for m in mism if m[0][0] == chunk and m[0] not in specs)
+            if want:
+                for line in out.splitlines():
+                    if line.startswith("SEQ\t"):
+                        f = line.split("\t", 2)
+                        if (chunk, int(f[1])) in want:
+                            specs[(chunk, int(f[1]))] = json.loads(f[2])
+            del out, mout
+        if True:
             # --- verdicts
             seen = set()
             for (sid, idx, name, oname, exp, impl, detail, line) in oracle_fail:
@@ -276,10 +314,15 @@ def main(tier, replay):
                                 has_input=False)
             if stats.get("model_ops", stats["ops"]) != stats["ops"]:
                 v.violation({"kind": "harness", "correspondence": "RawKV modelrun", "error": "model replayed %s of %d ops" % (stats.get("model_ops"), stats["ops"])}, has_input=False)
+    if tier == "thorough" and gate["ok"]:
+        okc, outc = vlib.coqchk(["Verif.RawKV.Props"])
+        cov["coqchk"] = "ok" if okc else outc[-300:]
+        if not okc:
+            v.violation({"kind": "proof", "theorem_or_file": "coqchk Verif.RawKV.Props", "what": "coqchk rejects the compiled proofs: " + outc[-400:]}, has_input=False)
     if not gate["ok"]:
         v.violation({"kind": "proof", "theorem_or_file": gate["problems"], "what": "Coq obligations no longer check"}, has_input=False)
-    if not samples and distinct:
-        samples = ["%s %s L=%s => %s" % (d[0], " ".join(d[1]), ";".join(d[2]), d[3]) for d in list(distinct)[:6]]
+    if not samples:
+        samples = fallback[:6]
     cov.update(evaluations=stats["ops"] + stats["oracle_evals"], distinct_nontrivial=len(distinct),
                rule="random op sequences (put/get/del/batch put,get,del with duplicates/delete-range/scan/reverse scan/checksum/cas) over a small key pool whose keys double as split keys, bounds = pool keys, key+00, empty; split/merge/leader-transfer between calls and before the i-th RPC of a call (i<=4); directed sequences for CAS absent/empty, BatchGet absent/duplicate keys, repeated split+merge epochs, limits hitting borders; distinct = distinct (op, args, serving layouts, result) with >= 1 RPC",
                samples=samples[:6], traces_validated_against_impl=stats["ops"], input_distribution=stats["classes"],
